@@ -8,23 +8,23 @@ package leanhelixterm
 // the term's random seed, aggregated into the block proof's seed signature) is verified before the COMMIT is handed over.
 //@ iface leanhelixterm.TermMessagesHandler.HandlePrePrepare
 //@   requires [O12.the-term-is-not-a-typed-nil] dyn(self, *termincommittee.TermInCommittee) != nil
-//@   requires [O8.FilterOK.the-message-is-for-the-term-height-and-not-from-this-node] ppm.content != nil ==> ppm.content.SignedHeader().BlockHeight() == dyn(self, *termincommittee.TermInCommittee).State.height && ppm.content.Sender().MemberId() != dyn(self, *termincommittee.TermInCommittee).myMemberId
+//@   requires [O8.FilterOK.the-message-is-for-the-term-height-and-not-from-this-node] ppm.content != nil ==> ppm.content.SignedHeader().BlockHeight() == dyn(self, *termincommittee.TermInCommittee).State.height && ppm.content.Sender().MemberId() != dyn(self, *termincommittee.TermInCommittee).myMemberId && ppm.content.SignedHeader().InstanceId() == dyn(self, *termincommittee.TermInCommittee).messageFactory.instanceId
 //@   ensures true
 //@ iface leanhelixterm.TermMessagesHandler.HandlePrepare
 //@   requires [O12.the-term-is-not-a-typed-nil] dyn(self, *termincommittee.TermInCommittee) != nil
-//@   requires [O8.FilterOK.the-message-is-for-the-term-height-and-not-from-this-node] pm.content != nil ==> pm.content.SignedHeader().BlockHeight() == dyn(self, *termincommittee.TermInCommittee).State.height && pm.content.Sender().MemberId() != dyn(self, *termincommittee.TermInCommittee).myMemberId
+//@   requires [O8.FilterOK.the-message-is-for-the-term-height-and-not-from-this-node] pm.content != nil ==> pm.content.SignedHeader().BlockHeight() == dyn(self, *termincommittee.TermInCommittee).State.height && pm.content.Sender().MemberId() != dyn(self, *termincommittee.TermInCommittee).myMemberId && pm.content.SignedHeader().InstanceId() == dyn(self, *termincommittee.TermInCommittee).messageFactory.instanceId
 //@   ensures true
 //@ iface leanhelixterm.TermMessagesHandler.HandleViewChange
 //@   requires [O12.the-term-is-not-a-typed-nil] dyn(self, *termincommittee.TermInCommittee) != nil
-//@   requires [O8.FilterOK.the-message-is-for-the-term-height-and-not-from-this-node] vcm.content != nil ==> vcm.content.SignedHeader().BlockHeight() == dyn(self, *termincommittee.TermInCommittee).State.height && vcm.content.Sender().MemberId() != dyn(self, *termincommittee.TermInCommittee).myMemberId
+//@   requires [O8.FilterOK.the-message-is-for-the-term-height-and-not-from-this-node] vcm.content != nil ==> vcm.content.SignedHeader().BlockHeight() == dyn(self, *termincommittee.TermInCommittee).State.height && vcm.content.Sender().MemberId() != dyn(self, *termincommittee.TermInCommittee).myMemberId && vcm.content.SignedHeader().InstanceId() == dyn(self, *termincommittee.TermInCommittee).messageFactory.instanceId
 //@   ensures true
 //@ iface leanhelixterm.TermMessagesHandler.HandleNewView
 //@   requires [O12.the-term-is-not-a-typed-nil] dyn(self, *termincommittee.TermInCommittee) != nil
-//@   requires [O8.FilterOK.the-message-is-for-the-term-height-and-not-from-this-node] nvm.content != nil ==> nvm.content.SignedHeader().BlockHeight() == dyn(self, *termincommittee.TermInCommittee).State.height && nvm.content.Sender().MemberId() != dyn(self, *termincommittee.TermInCommittee).myMemberId
+//@   requires [O8.FilterOK.the-message-is-for-the-term-height-and-not-from-this-node] nvm.content != nil ==> nvm.content.SignedHeader().BlockHeight() == dyn(self, *termincommittee.TermInCommittee).State.height && nvm.content.Sender().MemberId() != dyn(self, *termincommittee.TermInCommittee).myMemberId && nvm.content.SignedHeader().InstanceId() == dyn(self, *termincommittee.TermInCommittee).messageFactory.instanceId
 //@   ensures true
 //@ iface leanhelixterm.TermMessagesHandler.HandleCommit
 //@   requires [O12.the-term-is-not-a-typed-nil] dyn(self, *termincommittee.TermInCommittee) != nil
-//@   requires [O8.FilterOK.the-message-is-for-the-term-height-and-not-from-this-node] cm.content != nil ==> cm.content.SignedHeader().BlockHeight() == dyn(self, *termincommittee.TermInCommittee).State.height && cm.content.Sender().MemberId() != dyn(self, *termincommittee.TermInCommittee).myMemberId
+//@   requires [O8.FilterOK.the-message-is-for-the-term-height-and-not-from-this-node] cm.content != nil ==> cm.content.SignedHeader().BlockHeight() == dyn(self, *termincommittee.TermInCommittee).State.height && cm.content.Sender().MemberId() != dyn(self, *termincommittee.TermInCommittee).myMemberId && cm.content.SignedHeader().InstanceId() == dyn(self, *termincommittee.TermInCommittee).messageFactory.instanceId
 //@   requires [well-formed] cm != nil && cm.content != nil
 //@   requires [O3.the-random-seed-share-of-a-commit-is-verified-before-it-is-counted] VerifiedSeed(caller.keyManager, cm.content.SignedHeader().BlockHeight(), randomseed.RandomSeedToBytes(caller.randomSeed), cm.content.Sender().MemberId(), cm.content.Share())
 //@   ensures true
@@ -41,7 +41,7 @@ package leanhelixterm
 
 //@ func (*ConsensusMessagesFilter).HandleConsensusMessage
 //@   objinv [O12.the-handler-is-absent-or-a-real-term] HandlerOK(mp.handler)
-//@   requires [O8.FilterOK.what-the-height-filter-established] mp.handler != nil ==> message.BlockHeight() == dyn(mp.handler, *termincommittee.TermInCommittee).State.height && message.SenderMemberId() != dyn(mp.handler, *termincommittee.TermInCommittee).myMemberId
+//@   requires [O8.FilterOK.what-the-height-filter-established] mp.handler != nil ==> message.BlockHeight() == dyn(mp.handler, *termincommittee.TermInCommittee).State.height && message.SenderMemberId() != dyn(mp.handler, *termincommittee.TermInCommittee).myMemberId && message.InstanceId() == dyn(mp.handler, *termincommittee.TermInCommittee).messageFactory.instanceId
 //@   props C03 C08 C12
 //@   safety iface
 //@   requires mp.keyManager != nil
@@ -90,6 +90,7 @@ package leanhelixterm
 //@   ensures [height-untouched] state.height == old(state.height)
 //@   ensures [O8.the-protocol-logic-works-on-the-node-state-under-this-node-id] result.ConsensusMessagesFilter.handler != nil ==> dyn(result.ConsensusMessagesFilter.handler, *termincommittee.TermInCommittee).State == state
 //@     | && dyn(result.ConsensusMessagesFilter.handler, *termincommittee.TermInCommittee).myMemberId == config.Membership.MyMemberId()
+//@     | && dyn(result.ConsensusMessagesFilter.handler, *termincommittee.TermInCommittee).messageFactory != nil && dyn(result.ConsensusMessagesFilter.handler, *termincommittee.TermInCommittee).messageFactory.instanceId == config.InstanceId
 //@   assume [A-GHOST.the-term-belongs-to-the-current-height] TermHeightOf(result) == state.height
 
 // disposing the term disposes its protocol logic (which stops the election timer, C16)
